@@ -228,8 +228,11 @@ static void check_windows(Ctx& ctx, bool T) {
 // ------------------------------------------------------------------------------------------------ fir1
 enum { F_LOW, F_HIGH, F_BP, F_BS };
 static const char* TNAME[4] = {"low", "high", "bandpass", "bandstop"};
-enum { K_DEFAULT, K_HANN, K_RECT, K_KAISER6, K_NKIND };
-static const char* KNAME[K_NKIND] = {"default", "hann", "rect", "kaiser6"};
+// K_HANNP, K_RAMP, K_EXP are asymmetric custom windows of the right length: the statement requires a symmetric
+// (linear-phase) response for custom windows too, so a design must not inherit the asymmetry of its window.
+enum { K_DEFAULT, K_HANN, K_RECT, K_KAISER6, K_HANNP, K_RAMP, K_EXP, K_NKIND };
+static const char* KNAME[K_NKIND] = {"default", "hann", "rect", "kaiser6", "hann_periodic", "ramp", "exp_onesided"};
+static bool asym_kind(int kind) { return kind >= K_HANNP; }
 
 static int explen(int type, int n) { return (n % 2 == 1 && (type == F_HIGH || type == F_BS)) ? n + 2 : n + 1; }
 
@@ -239,6 +242,9 @@ static arr_real own_window(int kind, int len) {
     for (int i = 0; i < len; ++i) {
         if (kind == K_RECT || len < 2) w[i] = 1;
         else if (kind == K_HANN) w[i] = (double)ref_win(W_HANN, len, i, 0);
+        else if (kind == K_HANNP) w[i] = (double)ref_win(W_HANN, len + 1, i, 0);          // first len points of symmetric(len+1)
+        else if (kind == K_RAMP) w[i] = 0.1 + 0.9 * (double)i / (double)(len - 1);        // linear ramp 0.1 .. 1
+        else if (kind == K_EXP) w[i] = std::exp(-4.0 * (double)(len - 1 - i) / (double)(len - 1));   // e^-4 .. 1, one-sided
         else w[i] = (double)ref_win(W_KAISER, len, i, 6.0);
     }
     return w;
@@ -383,14 +389,26 @@ static void check_fir(Ctx& ctx, bool T) {
                                     }
                                 }
                                 if (mx == 0) mx = 1;
-                                if (!(type == F_HIGH && n % 2 == 0))
+                                if (asym_kind(kind))
+                                    ctx.worst("fir1 asymmetry / (eps max|h|) asymmetric custom windows", worst / (EPS * mx));
+                                else if (!(type == F_HIGH && n % 2 == 0))
                                     ctx.worst("fir1 asymmetry / (eps max|h|) (excl. even-order high-pass)", worst / (EPS * mx));
                                 else
                                     ctx.worst("fir1 asymmetry / (eps max|h|) even-order high-pass", worst / (EPS * mx));
                                 if (!(worst <= 4 * EPS * mx))
-                                    ctx.fail("fir1", fmt("h[%d]=%.17g h[%d]=%.17g", wi, h[wi], L - 1 - wi, h[L - 1 - wi]),
+                                    ctx.fail("fir1", fmt("h[%d]=%.17g h[%d]=%.17g (firtype: %s)", wi, h[wi], L - 1 - wi, h[L - 1 - wi],
+                                                         ft >= 0 && ft <= 4 ? FTN[ft] : "?"),
                                              "h[i] = h[N-1-i] within 4 eps max|h|",
                                              P().kv("aspect", "symmetry").kv("i", wi).kv("last", wi == 0 ? 1 : 0));
+                                // firtype() must classify a response that is mirror-equal by its own criterion (|d| < 2 eps
+                                // absolute; here demanded only when every |d| < eps) as the symmetric type of its length
+                                // parity.  A response that is not mirror-equal is reported by the symmetry aspect above.
+                                else if (worst < EPS) {
+                                    const int want = (L % 2 == 1) ? 1 : 2;   // EvenSymm (odd length) / OddSym (even length)
+                                    if (ft != want)
+                                        ctx.fail("firtype", std::string("firtype = ") + (ft >= 0 && ft <= 4 ? FTN[ft] : "?"), FTN[want],
+                                                 P().kv("aspect", "firtype"));
+                                }
                             }
                         }
                     }
@@ -405,7 +423,9 @@ static void check_fir(Ctx& ctx, bool T) {
                             }
                             const double dev = (double)fabsl(fabsl(s) - 1);
                             const double tol = 1e-12 + 8 * EPS * (double)sa;
-                            if (!(type == F_HIGH && n % 2 == 0)) ctx.worst("fir1 |gain-1| (excl. even-order high-pass)", dev);
+                            ctx.worst("fir1 gain conditioning sum|h|", (double)sa);
+                            if (asym_kind(kind)) ctx.worst("fir1 |gain-1| asymmetric custom windows", dev);
+                            else if (!(type == F_HIGH && n % 2 == 0)) ctx.worst("fir1 |gain-1| (excl. even-order high-pass)", dev);
                             else ctx.worst("fir1 |gain-1| even-order high-pass", dev);
                             if (!(dev <= tol)) {
                                 // classification aid: would the gain be 1 with the sign of the last tap flipped?
